@@ -118,6 +118,9 @@ CALENDARS = {
     "cycle30": (dt.date(2021, 1, 5), [30] * 13, "monthly"),
     "alt29_32": (dt.date(2021, 1, 5), [29, 32] * 6 + [29], "monthly"),
     "bimonthly61": (dt.date(2020, 11, 5), [61] * 12, "bimonthly"),
+    # cadences at the edges of what still is a monthly cycle (the typical period decides which limits apply)
+    "cycle34": (dt.date(2021, 1, 5), [34] * 11, "monthly"),
+    "cycle26": (dt.date(2021, 1, 5), [26] * 14, "monthly"),
 }
 
 
@@ -173,6 +176,12 @@ def billing_inputs(case):
 
 def build(space, case, inputs):
     cls = get_class(space, case.get("cls", "baseline"))
+    if case.get("tzkind") == "pytz":
+        # the same instants, the zone given as a pytz object (its tzinfo instances carry a fixed offset each)
+        import pytz
+
+        tz = pytz.timezone(case["zone"])
+        inputs = tuple(x.tz_convert(tz) if isinstance(x, (pd.Series, pd.DataFrame)) else x for x in inputs)
     if inputs[0] == "series":
         return cls.from_series(inputs[1], inputs[2], is_electricity_data=True)
     return cls(inputs[1], is_electricity_data=True)
@@ -196,6 +205,8 @@ def run_billing(case):
     key0 = {"space": "billing", "entry": case["entry"]}
     if case["feed"] == "halfhourly":
         key0["feed"] = "halfhourly"
+    if case.get("tzkind"):
+        key0["tzkind"] = case["tzkind"]
     periods = iv.billing_periods(dates, amounts, zone, regime)
     dev_pos = {p for p, _ in case.get("dev", [])}
     try:
@@ -358,6 +369,8 @@ def phase_cases(tier):
             for e, f in (combos if dst_dates(z, 2022) else combos[:1] + combos[2:3]):
                 out.append({"space": "billing", "cal": cal, "dev": [], "first": first.isoformat(), "zone": z, "entry": e,
                             "feed": f, "cls": "baseline"})
+                if dst_dates(z, 2022) and (tier != "quick" or z == "America/Chicago"):
+                    out.append(dict(out[-1], tzkind="pytz"))
     return out
 
 
@@ -421,6 +434,11 @@ def subdaily_inputs(case, zone, times, values, t0, t1):
     obs = pd.Series([np.nan if values[i] is None else float(values[i]) for i in keep], index=idx, name="value")
     if case["entry"] == "from_series":
         hours = list(range(t0, t1, 60))
+        if case.get("tfeed") == "finer":       # temperature rows BETWEEN the meter readings (twice the meter's rate)
+            hours = list(range(t0, t1, case["freq"] // 2))
+        elif case.get("tfeed") == "half_past":  # an hourly feed stamped at half past the hour
+            # (starting before the first meter reading: from_series trims the meter to the span of the feed)
+            hours = list(range(t0 - 30, t1 + 60, 60))
         temp = pd.Series([50.0 + (k % 7) for k in range(len(hours))], index=to_index(hours, zone), name="temperature")
         return ("series", obs, temp)
     temp = pd.Series([50.0 + (i % 7) for i in keep], index=idx)
@@ -471,6 +489,8 @@ def run_subdaily(case):
     zone, f, d0, ndays, times, ends, values, t0, t1 = subdaily_series(case)
     gran = "daily" if f == 1440 else "subdaily"
     key0 = {"space": "subdaily", "entry": case["entry"], "gap": case["gap"], "granularity": gran}
+    if case.get("tfeed"):
+        key0["tfeed"] = case["tfeed"]
     pres = [i for i, v in enumerate(values) if v is not None]
     if len(pres) < 2:
         return {"rejected": "fewer than two present readings"}
@@ -572,10 +592,21 @@ def subdaily_cases(tier):
                         for e in ("from_series", "frame"):
                             for c in ("baseline", "reporting"):
                                 out.append(dict(base, runs=[], gap="nan", entry=e, cls=c))
+                        # temperature feeds whose rows fall between the meter readings (the usage must not notice)
+                        # (half past only under the hourly meter: under a 30-minute meter from_series keeps one feed row before the
+                        # first reading, which opens a day of its own - an edge of the lenient trim, not a matter of usage)
+                        for tf in (("finer", "half_past") if f == 60 else ("finer",) if f == 30 else ()):
+                            for c in ("baseline", "reporting"):
+                                out.append(dict(base, runs=[], gap="nan", entry="from_series", cls=c, tfeed=tf))
                     elif d == 1:
                         for gap, entry, cls, lat in combos(f, z, w):
                             for runs in run_sets(f, n, 1, lattice_hours=lat):
                                 out.append(dict(base, runs=runs, gap=gap, entry=entry, cls=cls))
+                        if f == 60 and z == "America/Chicago" and (w == "spring" or not quick):
+                            for tf in ("finer", "half_past"):
+                                for gap in ("nan", "absent"):
+                                    for runs in run_sets(f, n, 1, lattice_hours=3 if quick else 1):
+                                        out.append(dict(base, runs=runs, gap=gap, entry="from_series", cls="baseline", tfeed=tf))
                     else:
                         # two runs: hourly (NaN gaps) and daily (both gap kinds) readings, Chicago, 4-hour lattice, via from_series
                         if z != "America/Chicago" or f not in (60, 1440):
